@@ -926,6 +926,10 @@ class Checker:
         if ev.get("model_ok") is False or ev.get("ed_ok") is False:
             self.rej("C07.builtins", f"{ev['cb']}: injected model/event_data are not the machine's own")
         if self.strict_args and not ctx.initial:
+            if ctx.args is not None and ev.get("ed_args") is not None and ev["ed_args"] != list(ctx.args):
+                self.rej("C07.forwarding", f"{ev['cb']}: event_data.args {ev['ed_args']} != sent {ctx.args}")
+            if ctx.ukw is not None and ev.get("ed_ukw") is not None and ev["ed_ukw"] != sorted(ctx.ukw):
+                self.rej("C07.forwarding", f"{ev['cb']}: trigger_data.kwargs keys {ev['ed_ukw']} != sent {sorted(ctx.ukw)}")
             if ctx.args is not None and ev.get("args") != list(ctx.args):
                 self.rej("C07.forwarding", f"{ev['cb']}: positional args {ev.get('args')} != sent {ctx.args}")
             if ctx.ukw is not None and ev.get("ukw") != ctx.ukw:
